@@ -413,13 +413,13 @@ def deep_repeat_probes(tier):
     yield {"cls": "TwoLevel", "period": 3, "b": 0, "storage": "DISK", "traj": "revolve", "n": 4, "passes": k}
 
 
-LARGE_N = (256, 257, 300)
+LARGE_N = (256, 257, 300, 600, 1000)
 
 
 def large_n_probes(tier):
     """A few configs per class around CPython's small-int cache boundary (256/257) and beyond
     every n the pinned suite uses (250): identity-vs-equality slips, table sizes, recursion."""
-    ns = LARGE_N if tier == "quick" else LARGE_N + (401, 512, 513)
+    ns = LARGE_N if tier == "quick" else LARGE_N + (401, 512, 513, 2000)
     for n in ns:
         yield {"cls": "None", "n": n, "passes": 0}
         yield {"cls": "SingleMemory", "n": n, "passes": 2}
